@@ -17,7 +17,12 @@
 //   In drain mode a non-zero <stall ms> is the sink's time PER MESSAGE instead of 100 ms (a long backlog: <per> x <stall ms>
 //   of sink work is queued when resetOwnThread() is called; every message must still reach the sink, in order).
 // Texts: every 9th message carries a leading / embedded / trailing U+0000.  line = index * 64 + producer.
-// input line:  <mode> <producers> <messages each> <seed> <perturb 0..3> <sinkdelay 0..2> [<stall ms>]
+// Time formats ("tfmt" = 1): the pipeline on the worker additionally holds PatternFormatter("%{time process}~%{time boot}~%{time hh:mm:ss.zzz}")
+//   in front of the sink, so that the TEXT the sink receives carries the message's time stamps as the library renders them.  bare
+//   mode: the twin's formatted text is what the same formatter yields synchronously on the original message (exact equality is
+//   required); logger mode: the twin carries the steady-clock interval [before the call, after it returned] and the rendered values
+//   must lie inside it.  Header: tcal=<ms> = (boot - process) rendering offset measured once, single-threaded, on a fresh message.
+// input line:  <mode> <producers> <messages each> <seed> <perturb 0..3> <sinkdelay 0..2> [<stall ms> [<tfmt 0|1>]]
 //   stall: the sink sleeps that long once, inside its first delivery (a stalled sink); the header reports the longest
 //   logging call (maxcall_us) so that a call blocking on the sink is visible
 // output: RUN header; "EV <tokens>"; "TW p i <dump>" per message; "AS k p i onworker <dump>" per delivery;
@@ -46,7 +51,8 @@ using namespace QtLogger;
 struct Ev { char kind; int prod, idx; };
 static std::vector<Ev> g_events;
 static std::atomic<long> g_ticket{0};
-static int g_perturb = 1, g_sinkdelay = 0, g_stall_ms = 0, g_slow_ms = 0;
+static int g_perturb = 1, g_sinkdelay = 0, g_stall_ms = 0, g_slow_ms = 0, g_tfmt = 0;
+static const char *TIME_PATTERN = "%{time process}~%{time boot}~%{time hh:mm:ss.zzz}";
 static std::atomic<bool> g_all_posted{false};
 static std::atomic<bool> g_relogged{false};
 static std::function<void()> g_relog;
@@ -148,7 +154,9 @@ struct RecSink : Sink {
 };
 template <class P> static void build(P &pl)
 {
-    pl << SeqNumberAttrPtr::create() << QSharedPointer<RandomWork>::create() << QSharedPointer<RecSink>::create();
+    pl << SeqNumberAttrPtr::create();
+    if (g_tfmt) pl << PatternFormatterPtr::create(QString::fromLatin1(TIME_PATTERN));    // renders the message's time stamps on the worker
+    pl << QSharedPointer<RandomWork>::create() << QSharedPointer<RecSink>::create();
 }
 static char *heapstr(const std::string &s) { char *p = (char *)malloc(s.size() + 1); memcpy(p, s.c_str(), s.size() + 1); return p; }
 static void scrub(char *p) { if (p) { memset(p, 'X', strlen(p)); free(p); } }
@@ -166,12 +174,19 @@ int main(int argc, char **argv)
     while (std::getline(std::cin, line)) {
         std::istringstream is(line);
         std::string mode; int n = 2, per = 10; unsigned seed = 1;
-        g_stall_ms = 0; g_stalled = false; g_maxcall_us = 0; g_slow_ms = 0; g_all_posted = false; g_relogged = false; g_relog = nullptr; g_max_nesting = 0;
-        is >> mode >> n >> per >> seed >> g_perturb >> g_sinkdelay >> g_stall_ms;
+        g_stall_ms = 0; g_tfmt = 0; g_stalled = false; g_maxcall_us = 0; g_slow_ms = 0; g_all_posted = false; g_relogged = false; g_relog = nullptr; g_max_nesting = 0;
+        is >> mode >> n >> per >> seed >> g_perturb >> g_sinkdelay >> g_stall_ms >> g_tfmt;
         if (mode.empty()) continue;
         g_events.assign((size_t)n * per * 6 + 64, Ev { '?', 0, 0 });
         g_ticket = 0;
         g_async.clear(); g_flushes.clear();
+        long tcal = 0;
+        if (g_tfmt) {       // single-threaded calibration: how far apart the library renders "boot" and "process" for one and the same message
+            PatternFormatter cf(QString::fromLatin1(TIME_PATTERN));
+            LogMessage m0(QtInfoMsg, QMessageLogContext("cal.cpp", 1, "void cal()", "default"), QStringLiteral("cal"));
+            const QStringList f = cf.format(m0).split(QLatin1Char('~'));
+            if (f.size() >= 2) tcal = qRound64(f[1].toDouble() * 1000.0) - qRound64(f[0].toDouble() * 1000.0);
+        }
         std::vector<std::vector<std::string>> twin(n + 1);
         std::vector<int> quotas(n, per);
         std::atomic<int> ready{0};
@@ -216,7 +231,12 @@ int main(int argc, char **argv)
                         LogMessage m(ty, ctx, text);
                         m.setAttribute("k", i); m.setAttribute(QStringLiteral("who"), QStringLiteral("p%1").arg(p));
                         if (i % 6 == 1) m.setFormattedMessage(QStringLiteral("pre<") + text + QStringLiteral(">"));
-                        tw = dump(m);
+                        if (g_tfmt) {       // what a synchronous pipeline with the same formatter hands to its sink
+                            thread_local PatternFormatter twf(QString::fromLatin1(TIME_PATTERN));
+                            LogMessage m2(m);
+                            m2.setFormattedMessage(twf.format(m2));
+                            tw = dump(m2);
+                        } else tw = dump(m);
                         record('C', p, i);
                         h.process(m);
                         record('T', p, i);
@@ -258,13 +278,15 @@ int main(int argc, char **argv)
                     if (text.contains(QChar(0)) && ty != QtFatalMsg) {      // printf-style macros cannot carry U+0000: documented entry point
                         QByteArray u = text.toUtf8(); std::ostringstream o;
                         qint64 t0 = QDateTime::currentMSecsSinceEpoch();
+                        const long long s0 = std::chrono::steady_clock::now().time_since_epoch().count();
                         record('C', p, i);
                         { QMessageLogContext ctx(f, ln, fn, c); lg.processMessage(ty, ctx, text); }
                         record('T', p, i);
+                        const long long s1 = std::chrono::steady_clock::now().time_since_epoch().count();
                         qint64 t1 = QDateTime::currentMSecsSinceEpoch();
                         o << (int)ty << "|h" << hex(u) << "|" << cs(f) << "|" << ln << "|" << cs(fn) << "|" << cs(c) << "|" << t0 << ".." << t1
                           << "~" << (int)Qt::LocalTime << "~" << QDateTime::fromMSecsSinceEpoch(t0).offsetFromUtc() << "~*"
-                          << "|*|" << (quint64) reinterpret_cast<quintptr>(QThread::currentThreadId()) << "|-||-";
+                          << "|" << s0 << ".." << s1 << "|" << (quint64) reinterpret_cast<quintptr>(QThread::currentThreadId()) << "|-||-";
                         tw = o.str();
                         scrub(f); scrub(fn); scrub(c);
                         return;
@@ -272,6 +294,7 @@ int main(int argc, char **argv)
                     QByteArray u = text.toUtf8();
                     std::ostringstream o;
                     qint64 t0 = QDateTime::currentMSecsSinceEpoch();
+                    const long long s0 = std::chrono::steady_clock::now().time_since_epoch().count();
                     record('C', p, i);
                     QMessageLogger ml(f, ln, fn, c);
                     switch (ty) {
@@ -285,10 +308,11 @@ int main(int argc, char **argv)
                     } break;
                     }
                     record('T', p, i);
+                    const long long s1 = std::chrono::steady_clock::now().time_since_epoch().count();
                     qint64 t1 = QDateTime::currentMSecsSinceEpoch();
                     o << (int)ty << "|h" << hex(u) << "|" << cs(f) << "|" << ln << "|" << cs(fn) << "|" << cs(c) << "|" << t0 << ".." << t1
                       << "~" << (int)Qt::LocalTime << "~" << QDateTime::fromMSecsSinceEpoch(t0).offsetFromUtc() << "~*"
-                      << "|*|" << (quint64) reinterpret_cast<quintptr>(QThread::currentThreadId()) << "|-||-";
+                      << "|" << s0 << ".." << s1 << "|" << (quint64) reinterpret_cast<quintptr>(QThread::currentThreadId()) << "|-||-";
                     tw = o.str();
                     scrub(f); scrub(fn); scrub(c);
                 };
@@ -310,7 +334,7 @@ int main(int argc, char **argv)
         long cnt = std::min<long>(g_ticket.load(), (long)g_events.size());
         std::ostringstream o;
         o << "RUN " << mode << " " << n << " " << per << " " << seed << " " << g_perturb << " " << g_sinkdelay << " events=" << g_ticket.load()
-          << (g_ticket.load() > (long)g_events.size() ? " OVERFLOW" : "") << " stall_ms=" << g_stall_ms << " maxcall_us=" << g_maxcall_us.load() << " max_nesting=" << g_max_nesting.load() << " quotas=";
+          << (g_ticket.load() > (long)g_events.size() ? " OVERFLOW" : "") << " stall_ms=" << g_stall_ms << " maxcall_us=" << g_maxcall_us.load() << " max_nesting=" << g_max_nesting.load() << " tfmt=" << g_tfmt << " tcal=" << tcal << " quotas=";
         for (size_t k = 0; k < quotas.size(); k++) o << (k ? "," : "") << quotas[k];
         o << "\nEV ";
         for (long k = 0; k < cnt; k++) o << g_events[k].kind << "." << g_events[k].prod << "." << g_events[k].idx << " ";
